@@ -1,6 +1,7 @@
 # codec_ref.py - offline checker for C18: Python's utf-8 codec, int(), bytes.hex() and base64 over the log of harness/h_codec.cpp.
 #   U <first cp> <count> <hex>   S <first cp> <count> <hex>   D <hex> <cp>   W <hex> <0|1>
 #   I <i32|u32|i64|u64> <bits hex> <text>   X <input hex> <text>   B <base64 text> <decoded hex>
+#   A <i32|u32|i64|u64> <bits hex> <text>   value returned by the member to*() of a String attached to exactly <text> inside a larger block
 import base64, binascii
 from . import core
 from .core import HarnessFailure
@@ -20,7 +21,7 @@ def self_check():
 def post(ctx):
     self_check()
     stats = ctx.extra_cov.setdefault('_stats', {})
-    n = dict(U=0, S=0, D=0, W=0, I=0, X=0, B=0)
+    n = dict(U=0, S=0, D=0, W=0, I=0, X=0, B=0, A=0)
     cps = 0
     sur_agree = sur_differ = 0
     lenient = 0
@@ -98,6 +99,15 @@ def post(ctx):
                                         raise ValueError
                                 except ValueError:
                                     raise HarnessFailure('codec_ref: int round trip broken for %s' % line)
+                        elif k == 'A' and len(t) == 4:
+                            bits = int(t[2], 16)
+                            width = 32 if t[1] in ('i32', 'u32') else 64
+                            bits &= (1 << width) - 1
+                            v = bits - (1 << width) if t[1][0] == 'i' and bits >> (width - 1) else bits
+                            n['A'] += 1
+                            if int(t[3]) != v:
+                                report('String.to%s/attached-view/value-differs-from-python-int' % {'i32': 'Int', 'u32': 'UInt', 'i64': 'Int64', 'u64': 'UInt64'}[t[1]], line,
+                                       'String attached to the characters "%s" converted to %d' % (t[3], v))
                         elif k == 'X' and len(t) == 3:
                             raw = bytes.fromhex(t[1])
                             n['X'] += 1
@@ -131,6 +141,7 @@ def post(ctx):
     stats['offline_isvalid_compared'] = n['W']
     stats['offline_ints_compared'] = n['I']
     stats['offline_hex_compared'] = n['X']
+    stats['offline_attached_parses_compared'] = n['A']
     stats['offline_base64_compared'] = n['B']
     ctx.extra_cov['offline_counts'] = {k: v for k, v in stats.items() if k.startswith('offline_')}
     ctx.extra_cov['offline_checker'] = 'vlib/codec_ref.py: str.encode("utf-8") / bytes.decode, str(int), bytes.hex().upper(), base64.b64decode(validate=True) + b64encode cross-check of the harness encoder'
